@@ -93,9 +93,14 @@ def run(tier, seed):
         if fid in open_findings:
             res.known(open_findings[fid])
 
-    # ---- witnesses of the open findings; classifiers of repaired findings are switched off for this run
-    base.ACTIVE["rules"] = None
-    base.ACTIVE["hazards"] = None
+    # ---- fixed corpus first (witnesses of repaired findings must pass), then the witnesses of the open findings
+    fixed_b = roundtrips(drv, [w[0] for w in base.C16_FIXED_WITNESSES])
+    fixed_c = roundtrips(drv, [w[1] for w in base.C16_FIXED_WITNESSES])
+    for w, bb, rr in zip(base.C16_FIXED_WITNESSES, fixed_b, fixed_c):
+        evaluations += 2
+        if verdict(bb) != "ok" or comment_verdict(bb["s0"], w[2], rr) != "ok":
+            res.violation("a repaired finding is back: %r is formatted as %r" % (w[1], rr.get("p1")),
+                          {"kind": "doc", "base": w[0], "text": w[1], "comments": w[2]})
     probe = base.probe_comment_findings(drv)
     for fid, ws in WITNESSES.items():
         failing = probe[fid]
